@@ -1223,16 +1223,59 @@ def flatten_blocks(fn):
                     out.append(s)
                     changed = True
                     n += 1
+                elif (s.get("k") in ("assign", "assignop") and isinstance(s.get("r"), dict) and s["r"].get("k") == "blk" and s["r"].get("lbl") is None and not s["r"].get("unsafe")
+                      and s["r"]["b"].get("k") == "block" and s["r"]["b"]["stmts"] and s["r"]["b"].get("tail") is not None and _pure_access(s["l"])
+                      and not ({y["hid"] for y in _walk(s["l"]) if y.get("k") == "local"} & set(_assigned_locals(s["r"]["b"]["stmts"])))):
+                    # `PLACE = { s1; s2; t };`  ->  `s1; s2; PLACE = t;`   (the statements do not change what PLACE names; for `op=` the old value is read after them either way
+                    #  only when they do not write PLACE's root - checked through the same set)
+                    out.extend(s["r"]["b"]["stmts"])
+                    s["r"] = s["r"]["b"]["tail"]
+                    out.append(s)
+                    changed = True
+                    n += 1
+                elif (s.get("k") == "if" and isinstance(s.get("c"), dict) and s["c"].get("k") == "letx" and isinstance(s["c"].get("init"), dict) and s["c"]["init"].get("k") == "blk"
+                      and s["c"]["init"].get("lbl") is None and s["c"]["init"]["b"].get("k") == "block" and s["c"]["init"]["b"]["stmts"] and s["c"]["init"]["b"].get("tail") is not None
+                      and all(t_.get("k") == "let" and not t_.get("els") for t_ in s["c"]["init"]["b"]["stmts"])):
+                    # `if let P = { let a = ..; e } { T }`  ->  `let a = ..; if let P = e { T }`
+                    out.extend(s["c"]["init"]["b"]["stmts"])
+                    s["c"]["init"] = s["c"]["init"]["b"]["tail"]
+                    out.append(s)
+                    changed = True
+                    n += 1
                 else:
                     out.append(s)
             b["stmts"] = out
             t = b.get("tail")
+            if (isinstance(t, dict) and t.get("k") == "if" and isinstance(t.get("c"), dict) and t["c"].get("k") == "letx" and isinstance(t["c"].get("init"), dict) and t["c"]["init"].get("k") == "blk"
+                    and t["c"]["init"].get("lbl") is None and t["c"]["init"]["b"].get("k") == "block" and t["c"]["init"]["b"]["stmts"] and t["c"]["init"]["b"].get("tail") is not None
+                    and all(t_.get("k") == "let" and not t_.get("els") for t_ in t["c"]["init"]["b"]["stmts"])):
+                b["stmts"] = b["stmts"] + list(t["c"]["init"]["b"]["stmts"])
+                t["c"]["init"] = t["c"]["init"]["b"]["tail"]
+                changed = True
+                n += 1
             if (isinstance(t, dict) and t.get("k") == "blk" and t.get("lbl") is None and not t.get("unsafe") and t["b"].get("k") == "block" and t["b"]["stmts"]):
                 b["stmts"] = b["stmts"] + list(t["b"]["stmts"])
                 b["tail"] = t["b"].get("tail")
                 changed = True
                 n += 1
     return n
+
+
+def _assigned_locals(stmts):
+    """hids of locals assigned (as a whole or through a place rooted at them) or mutably borrowed in stmts"""
+    out = set()
+    for x in stmts:
+        for y in _walk(x):
+            tgt = None
+            if y.get("k") in ("assign", "assignop"):
+                tgt = y["l"]
+            elif y.get("k") == "ref" and y.get("mut"):
+                tgt = y["x"]
+            if tgt is not None:
+                r = _root(tgt)
+                if r is not None and r.get("k") == "local":
+                    out.add(r["hid"])
+    return out
 
 
 def move_aliases(fn):
@@ -3013,6 +3056,189 @@ def struct_subpatterns(fn):
     return n
 
 
+def scalar_folds(fn):
+    """D36  `let P = ITER.fold(init, |acc, X| body);`   ->  `let mut acc = init; for X in ITER { acc = body; } let P = acc;`
+            `PLACE = ITER.fold(init, |acc, X| body);`   ->  `let mut acc = init; for X in ITER { acc = body; } PLACE = acc;`
+       (acc a plain binding; a `return v` in the closure is `{ acc = v; continue }`); the definition of fold.
+       D37  `for (m, n) in (a..b).flat_map(|m| (c..d).map(move |n| (m, n))) { body }`  ->  `for m in a..b { for n in c..d { body } }`
+       D38  `x = if c { e } else { x };`  ->  `if c { x = e; }`      (and the mirrored form)."""
+    n = 0
+    for blkn in list(_walk(fn.get("body"))):
+        if blkn.get("k") != "block":
+            continue
+        out = []
+        for st in blkn["stmts"]:
+            src = None
+            if st.get("k") == "let" and not st.get("els") and st.get("init") is not None:
+                src = _unblk(st["init"])
+                kind = "let"
+            elif st.get("k") == "assign" and _pure_access(st["l"]):
+                src = _unblk(st["r"])
+                kind = "assign"
+            done = False
+            if src is not None and src.get("k") == "mcall" and src.get("name") == "fold" and len(src.get("args") or []) == 2:
+                cl = _unblk(src["args"][1])
+                seed = src["args"][0]
+                if cl is not None and cl.get("k") == "closure" and len(cl.get("params") or []) == 2:
+                    ap = cl["params"][0]
+                    while ap.get("k") in ("ref", "deref"):
+                        ap = ap["p"]
+                    s0 = _unblk(seed)
+                    if ap.get("k") == "bind" and not ap.get("sub") and s0 is not None and s0.get("k") != "tup" and (kind == "let" or not _mentions(st["l"], ap["hid"])):
+                        _FOLD[0] += 1
+                        lid = 9800000 + _FOLD[0]
+                        line = st.get("line")
+                        acc = lambda: {"k": "local", "name": ap["name"], "hid": ap["hid"], "t": ap.get("t"), "line": line}
+                        body = copy.deepcopy(cl["body"])
+
+                        def fix(x):
+                            if isinstance(x, list):
+                                return [fix(v) for v in x]
+                            if not isinstance(x, dict):
+                                return x
+                            if x.get("k") == "closure":
+                                return x
+                            if x.get("k") == "ret":
+                                asg = {"k": "assign", "l": acc(), "r": x.get("v"), "line": x.get("line")}
+                                return {"k": "blk", "b": {"k": "block", "stmts": [asg, {"k": "continue", "label": lid, "line": x.get("line")}], "tail": None}, "line": x.get("line")}
+                            for k_, v in list(x.items()):
+                                if isinstance(v, (dict, list)):
+                                    x[k_] = fix(v)
+                            return x
+                        body = fix(body)
+                        out.append({"k": "let", "pat": {**ap, "mode": "BindingMode(No, Mut)"}, "init": seed, "els": None, "line": line})
+                        out.append({"k": "for", "pat": cl["params"][1], "iter": src["recv"], "loop_id": lid, "line": line, "from_fold": True,
+                                    "body": {"k": "blk", "b": {"k": "block", "stmts": [{"k": "assign", "l": acc(), "r": body, "line": line}], "tail": None}, "line": line}})
+                        if kind == "let":
+                            out.append({**st, "init": acc()})
+                        else:
+                            out.append({**st, "r": acc()})
+                        n += 1
+                        done = True
+            if not done:
+                out.append(st)
+        blkn["stmts"] = out
+    # D37
+    for lp in list(_walk(fn.get("body"))):
+        if lp.get("k") != "for":
+            continue
+        it = _unblk(lp["iter"])
+        if it is None or it.get("k") != "mcall" or it.get("name") != "flat_map" or len(it.get("args") or []) != 1:
+            continue
+        o_rng = _unblk(it["recv"])
+        cl = _unblk(it["args"][0])
+        if not (o_rng is not None and o_rng.get("k") == "struct" and str(o_rng.get("path", "")).endswith("ops::Range") and cl is not None and cl.get("k") == "closure" and len(cl.get("params") or []) == 1):
+            continue
+        op = cl["params"][0]
+        inner = _unblk(cl["body"])
+        if not (op.get("k") == "bind" and inner is not None and inner.get("k") == "mcall" and inner.get("name") == "map" and len(inner.get("args") or []) == 1):
+            continue
+        i_rng = _unblk(inner["recv"])
+        cl2 = _unblk(inner["args"][0])
+        if not (i_rng is not None and i_rng.get("k") == "struct" and str(i_rng.get("path", "")).endswith("ops::Range") and cl2 is not None and cl2.get("k") == "closure" and len(cl2.get("params") or []) == 1):
+            continue
+        ip = cl2["params"][0]
+        pair = _unblk(cl2["body"])
+        pat = lp["pat"]
+        if not (ip.get("k") == "bind" and pair is not None and pair.get("k") == "tup" and len(pair["xs"]) == 2 and pat.get("k") == "tuple" and len(pat["ps"]) == 2
+                and all(q.get("k") == "bind" for q in pat["ps"])):
+            continue
+        a0, a1 = _unblk(pair["xs"][0]), _unblk(pair["xs"][1])
+        if not (a0.get("k") == "local" and a0["hid"] == op["hid"] and a1.get("k") == "local" and a1["hid"] == ip["hid"]):
+            continue
+        if _mentions(i_rng, op["hid"]):
+            pass      # an inner range depending on the outer index is still a nest
+        line = lp.get("line")
+        _FOLD[0] += 1
+        inner_for = {"k": "for", "pat": pat["ps"][1], "iter": inner["recv"], "body": lp["body"], "loop_id": 9800000 + _FOLD[0], "line": line, "from_product": True}
+        # the inner range may mention the closure's own outer parameter: rename it to the loop's outer binding
+        for y in _walk(inner_for["iter"]):
+            if y.get("k") == "local" and y.get("hid") == op["hid"]:
+                y["hid"], y["name"] = pat["ps"][0]["hid"], pat["ps"][0]["name"]
+        lp["pat"] = pat["ps"][0]
+        lp["iter"] = it["recv"]
+        lp["body"] = {"k": "blk", "b": {"k": "block", "stmts": [inner_for], "tail": None}, "line": line}
+        n += 1
+    # D38
+    for x in _walk(fn.get("body")):
+        if x.get("k") != "assign":
+            continue
+        r = _unblk(x["r"])
+        l = _unblk(x["l"])
+        if r is None or l is None or r.get("k") != "if" or r.get("el") is None or l.get("k") != "local" or _unblk(r["c"]).get("k") == "letx":
+            continue
+        th, el = _unblk(r["th"]), _unblk(r["el"])
+        same = lambda e: e is not None and e.get("k") == "local" and e["hid"] == l["hid"]
+        if same(el) and not same(th) and th is not None and r["th"].get("k") == "blk" and not r["th"]["b"]["stmts"]:
+            cond, val = r["c"], r["th"]["b"]["tail"]
+        elif same(th) and not same(el) and el is not None and r["el"].get("k") == "blk" and not r["el"]["b"]["stmts"]:
+            cond, val = {"k": "un", "op": "Not", "x": r["c"], "line": r.get("line")}, r["el"]["b"]["tail"]
+        else:
+            continue
+        line = x.get("line")
+        asg = {"k": "assign", "l": x["l"], "r": val, "line": line}
+        x.clear()
+        x.update({"k": "if", "c": cond, "th": {"k": "blk", "b": {"k": "block", "stmts": [asg], "tail": None}, "line": line}, "el": None, "line": line, "from_identity_else": True})
+        n += 1
+    return n
+
+
+_TP = [0]
+
+
+def tuple_params(fn):
+    """D39  a parameter written as a tuple pattern `(a, b): (T, U)` (also behind `&`) whose components are never assigned  ->  one parameter `p` with
+    `a` read as `p.0` and `b` as `p.1` (how the value is taken apart at the callee's entry is not observable)."""
+    n = 0
+    params = fn.get("params") or []
+    if fn.get("body") is None:
+        return 0
+    for k, p0 in enumerate(params):
+        tp = p0
+        while tp is not None and tp.get("k") in ("ref", "deref"):
+            tp = tp["p"]
+        if tp is None or tp.get("k") != "tuple" or not tp["ps"]:
+            continue
+        qs = []
+        for z in tp["ps"]:
+            zz = z
+            while zz is not None and zz.get("k") in ("ref", "deref"):
+                zz = zz["p"]
+            qs.append(zz if zz is not None and zz.get("k") in ("bind", "wild") and not zz.get("sub") else None)
+        if None in qs:
+            continue
+        hs = {q["hid"] for q in qs if q.get("k") == "bind"}
+        if hs & _assigned_locals([fn["body"]]):
+            continue
+        if any(str(q.get("mode", "")).startswith("BindingMode(Ref") for q in qs if q.get("k") == "bind"):
+            continue
+        _TP[0] += 1
+        ph = 9950000 + _TP[0]
+        name = "_arg%d" % k
+        mp = {q["hid"]: i for i, q in enumerate(qs) if q.get("k") == "bind"}
+
+        def subst(x):
+            if isinstance(x, list):
+                return [subst(v) for v in x]
+            if not isinstance(x, dict):
+                return x
+            if x.get("k") == "local" and x.get("hid") in mp:
+                return {"k": "field", "b": {"k": "local", "name": name, "hid": ph, "line": x.get("line")}, "f": str(mp[x["hid"]]), "t": x.get("t"), "line": x.get("line")}
+            for k_, v in list(x.items()):
+                if isinstance(v, (dict, list)):
+                    x[k_] = subst(v)
+            return x
+        fn["body"] = subst(fn["body"])
+        ty_i = None
+        tys = _TYPES[0] or []
+        want_ty = (fn.get("inputs") or [None] * (k + 1))[k] if k < len(fn.get("inputs") or []) else None
+        if want_ty is not None and want_ty in tys:
+            ty_i = tys.index(want_ty)
+        params[k] = {"k": "bind", "name": name, "hid": ph, "mode": "BindingMode(No, Not)", "t": ty_i}
+        n += 1
+    return n
+
+
 _NEG = {"Lt": "Ge", "Ge": "Lt", "Gt": "Le", "Le": "Gt", "Eq": "Ne", "Ne": "Eq"}
 
 
@@ -3100,7 +3326,9 @@ def run(facts):
     for fn in facts["fns"].values():
         if fn.get("body") is None:
             continue
+        _TYPES[0] = facts.get("types")
         counts["debug_asserts"] += strip_debug_asserts(fn["body"])
+        counts["tuple_params"] = counts.get("tuple_params", 0) + tuple_params(fn)
         counts["tail_returns"] = counts.get("tail_returns", 0) + tail_returns(fn)
         counts["range_for_each"] = counts.get("range_for_each", 0) + range_for_each(fn)
         counts["compound_assignments"] = counts.get("compound_assignments", 0) + compound_assignments(fn)
@@ -3109,6 +3337,8 @@ def run(facts):
         counts["eta_reduced"] = counts.get("eta_reduced", 0) + eta_reduce(fn)
         counts["partial_cmp_matches"] = counts.get("partial_cmp_matches", 0) + partial_cmp_match(fn)
         counts["reduce_max_by"] = counts.get("reduce_max_by", 0) + reduce_to_max_by(fn)
+        counts["scalar_folds"] = counts.get("scalar_folds", 0) + scalar_folds(fn)
+        counts["compound_assignments"] = counts.get("compound_assignments", 0) + compound_assignments(fn)
         counts["tuple_folds"] = counts.get("tuple_folds", 0) + tuple_folds(fn)
         counts["inclusive_ranges"] = counts.get("inclusive_ranges", 0) + inclusive_ranges(fn)
         counts["mem_replace"] = counts.get("mem_replace", 0) + mem_replace(fn)
@@ -3126,6 +3356,7 @@ def run(facts):
         counts["lifted_arg_blocks"] = counts.get("lifted_arg_blocks", 0) + lift_arg_blocks(fn, facts["types"])
         counts["trivial_arg_blocks"] = counts.get("trivial_arg_blocks", 0) + unwrap_trivial_arg_blocks(fn)
         counts["flattened_blocks"] = counts.get("flattened_blocks", 0) + flatten_blocks(fn)
+        counts["case_of_case"] = counts.get("case_of_case", 0) + option_case_of_case(fn)
         counts["split_tuple_lets"] = counts.get("split_tuple_lets", 0) + split_tuple_lets(fn["body"])
         counts["move_aliases"] = counts.get("move_aliases", 0) + move_aliases(fn)
         counts["mut_ref_aliases"] = counts.get("mut_ref_aliases", 0) + mut_ref_aliases(fn)
@@ -3134,6 +3365,9 @@ def run(facts):
         counts["local_closures"] += lc_
         if lc_:
             counts["flattened_blocks"] = counts.get("flattened_blocks", 0) + flatten_blocks(fn)
+            counts["case_of_case"] = counts.get("case_of_case", 0) + option_case_of_case(fn)
+            counts["flattened_blocks"] = counts.get("flattened_blocks", 0) + flatten_blocks(fn)
+            counts["split_tuple_lets"] = counts.get("split_tuple_lets", 0) + split_tuple_lets(fn["body"])
             counts["mut_ref_aliases"] = counts.get("mut_ref_aliases", 0) + mut_ref_aliases(fn)
             counts["move_aliases"] = counts.get("move_aliases", 0) + move_aliases(fn)
         counts["tuple_values"] = counts.get("tuple_values", 0) + split_tuple_values(fn)
